@@ -189,3 +189,21 @@ class SymValues:
                     self.stmt(st, s, refs)
                 out.append((bb, t["fn"], [self.operand(st, a) for a in t.get("args", [])]))
         return out
+
+    def aggregates(self, pred):
+        """[(bb, rvalue, [operand terms])] for aggregate statements satisfying pred(rvalue), operands evaluated just before"""
+        out = []
+        for bb in sorted(self.out):
+            preds = [p for p in self.b.preds(bb) if p in self.out]
+            inn = {} if bb == 0 else (self.join(bb, [self.out[p] for p in preds]) if preds else None)
+            if inn is None:
+                continue
+            st = dict(inn)
+            refs = dict(st.get("__refs__", {}))
+            for s_ in self.b.stmts(bb):
+                rv = s_.get("rv")
+                if rv and rv.get("k") == "agg" and pred(rv):
+                    out.append((bb, rv, [self.operand(st, o) for o in rv["ops"]]))
+                self.stmt(st, s_, refs)
+        return out
+
